@@ -76,6 +76,19 @@ def impl_broadcast(cfg, t1, t2, rng, res):
                 m2 = attempt(lambda: optree.tree_map(lambda *xs: (rec2.append(xs), xs[0])[1], x, y, **kw))
                 if m1[0] != m2[0] or len(rec1) != len(rec2) or any(any(p is not q for p, q in zip(u, v)) for u, v in zip(rec1, rec2)):
                     res.fail('tree_broadcast_map differs from tree_map over the broadcast trees', case)
+                # ... and so do the with_path / with_accessor variants (first argument: the path / accessor
+                # of the leaf in the common structure)
+                for vname, bfn, mfn in (('with_path', optree.tree_broadcast_map_with_path, optree.tree_map_with_path),
+                                        ('with_accessor', optree.tree_broadcast_map_with_accessor, optree.tree_map_with_accessor)):
+                    rec3, rec4 = [], []
+                    m3 = attempt(lambda: bfn(lambda p, *xs: (rec3.append((p, xs)), xs[0])[1], a, b, **kw))
+                    m4 = attempt(lambda: mfn(lambda p, *xs: (rec4.append((p, xs)), xs[0])[1], x, y, **kw))
+                    if m3[0] != m4[0] or len(rec3) != len(rec4) or len(rec3) != len(rec1) \
+                            or any(pu != pv or any(p is not q for p, q in zip(u, v)) for (pu, u), (pv, v) in zip(rec3, rec4)):
+                        res.fail(f'tree_broadcast_map_{vname} differs from tree_map_{vname} over the broadcast trees', case,
+                                 f'{m3[0]} {m4[0]} {len(rec3)} {len(rec4)}')
+                    elif m3[0] == 0 and m1[0] == 0 and optree.tree_structure(m3[1], **kw) != optree.tree_structure(m1[1], **kw):
+                        res.fail(f'tree_broadcast_map_{vname} returns another structure than tree_broadcast_map', case)
         return case, obs
 
 
